@@ -34,10 +34,31 @@ class BinaryFileWriter(BaseIoWriter):
         # probably already good because we read it as such, but better be safe.
         definitions = module.get_definitions_per_section()
 
-        # Iterate over (possible) sections
-        for section_name, section_id in SECTION_IDS.items():
-            if section_name == "code":
-                continue  # we have 'func' instead
+        # A custom section stays where it is: after the standard section it
+        # followed when it was read, or else after the section of the
+        # definition which precedes it in the module.
+        customs = []
+        after = 0
+        for definition in module.definitions:
+            if definition.__name__ == "custom":
+                position = getattr(definition, "position", None)
+                customs.append(
+                    (after if position is None else position, definition)
+                )
+            else:
+                after = SECTION_IDS[definition.__name__]
+        customs.sort(key=lambda item: self.section_order(item[0]))
+
+        # Iterate over (possible) sections, the data count section comes
+        # before the code section:
+        section_names = [
+            name
+            for name in SECTION_IDS
+            if name not in ("custom", "code", "datacount")
+        ]
+        section_names.insert(section_names.index("func"), "datacount")
+        for section_name in section_names:
+            section_id = SECTION_IDS[section_name]
 
             # Prepare file to write this section to.
             # It is tempting to use f.tell() and write the size later, but
@@ -64,15 +85,6 @@ class BinaryFileWriter(BaseIoWriter):
                 elif section_name == "datacount":
                     assert len(section_defs) == 1, "Expected 1 data count def"
                     f2.write_definition(section_defs[0])
-                elif section_name == "custom":
-                    for d in section_defs:
-                        f3 = BinaryFileWriter(BytesIO())
-                        f3.write_definition(d)
-                        payload = f3.f.getvalue()
-                        #
-                        f2.write_vu7(section_id)  # \x00
-                        f2.write_vu32(len(payload))
-                        f2.write(payload)
                 else:
                     # Write how many definitions, and write each one
                     f2.write_vu32(len(section_defs))  # count
@@ -90,10 +102,31 @@ class BinaryFileWriter(BaseIoWriter):
             logger.debug(
                 f"Writing section {section_id} of {len(payload)} bytes"
             )
-            if section_name != "custom":
-                self.write_vu7(section_id)
-                self.write_vu32(len(payload))
+            # The custom sections which belong before this section:
+            order = section_names.index(section_name)
+            while customs and self.section_order(customs[0][0]) < order:
+                self.write_custom_section(customs.pop(0)[1])
+            self.write_vu7(section_id)
+            self.write_vu32(len(payload))
             self.write(payload)
+
+        for _, definition in customs:
+            self.write_custom_section(definition)
+
+    @staticmethod
+    def section_order(section_id):
+        """Position of the section with this id in the binary format."""
+        order = [1, 2, 3, 4, 5, 6, 7, 8, 9, 12, 10, 11]
+        return order.index(section_id) if section_id in order else -1
+
+    def write_custom_section(self, definition):
+        """Write a custom definition as a section of its own."""
+        f3 = BinaryFileWriter(BytesIO())
+        f3.write_definition(definition)
+        payload = f3.f.getvalue()
+        self.write_vu7(SECTION_IDS["custom"])  # \x00
+        self.write_vu32(len(payload))
+        self.write(payload)
 
     def write_header(self):
         """Write WebAssembly header."""
